@@ -144,6 +144,7 @@ func H_Conc() {
 			res[g] = append(res[g], r)
 		}
 	}
+	vrt.RaceDetect(vrt.Param("race", 0) == 1)
 	vrt.Go("A", func() { run(0) })
 	vrt.Go("B", func() { run(1) })
 	vrt.WaitAll()
